@@ -9,7 +9,14 @@ var All = map[string]func(*ev.Run) int{}
 // Levels maps property ids to the evidence level they report.
 var Levels = map[string]string{}
 
+// currentRun is the run of the one check this process executes (the parent
+// process starts one child per check).
+var currentRun *ev.Run
+
 func register(id, level string, f func(*ev.Run) int) {
-	All[id] = f
+	All[id] = func(r *ev.Run) int {
+		currentRun = r
+		return f(r)
+	}
 	Levels[id] = level
 }
